@@ -4,6 +4,7 @@ package main
 
 import (
 	"fmt"
+	"math"
 	"os"
 	"time"
 
@@ -18,7 +19,7 @@ type regime struct {
 	seeds    [][]int
 	depth    int
 	dups     []int
-	spread   int // 0 compact alphabet, 1 spread, 2 compact scaled by 0.1, 3 the 36-point grid
+	spread   int // 0 compact alphabet, 1 spread, 2 compact scaled by 0.1, 3 the 36-point grid, 4 / 5 compact scaled by 2^130 / 2^-34, 6 points only
 }
 
 func seedOrders(n int) [][]int {
@@ -75,6 +76,9 @@ func main() {
 		{"full(2,5)x7", 7, 2, 5, nil, 200, nil, 0},
 		{"full(3,6)x8", 8, 3, 6, nil, 8, []int{0}, 0},
 		{"scaled-full(2,4)x6", 6, 2, 4, nil, 200, []int{0}, 2},
+		{"scaled(2^130)-full(2,4)x6", 6, 2, 4, nil, 200, []int{0}, 4},
+		{"scaled(2^-34)-full(2,4)x6", 6, 2, 4, nil, 200, []int{0}, 5},
+		{"points-full(2,4)x7", 7, 2, 4, nil, 200, nil, 6},
 		{"seeds(2,4)x13", 13, 2, 4, seedOrders(13), 3, nil, 0},
 		{"spread-seeds(2,4)x13", 13, 2, 4, seedOrders(13), 3, nil, 1},
 		{"spread-full(2,4)x6", 6, 2, 4, nil, 200, nil, 1},
@@ -90,6 +94,10 @@ func main() {
 			{"full(2,4)x6+dup5", 6, 2, 4, nil, 200, []int{5}, 0},
 			{"full(2,5)x7", 7, 2, 5, nil, 200, nil, 0},
 			{"scaled-full(2,4)x6", 6, 2, 4, nil, 200, []int{0}, 2},
+			{"scaled(2^130)-full(2,4)x6", 6, 2, 4, nil, 200, []int{0}, 4},
+			{"scaled(2^-34)-full(2,4)x6", 6, 2, 4, nil, 200, []int{0}, 5},
+			{"points-full(2,4)x7", 7, 2, 4, nil, 200, []int{0}, 6},
+			{"points-full(2,5)x8", 8, 2, 5, nil, 200, nil, 6},
 			{"spread-full(2,4)x7", 7, 2, 4, nil, 60, []int{0}, 1},
 			{"seeds(2,4)x13", 13, 2, 4, seedOrders(13), 4, nil, 0},
 			{"spread-seeds(2,4)x13", 13, 2, 4, seedOrders(13), 4, nil, 1},
@@ -114,6 +122,12 @@ func main() {
 			u = rtreemc.NewScaledUniverse(g.nobj, g.min, g.max, g.dups...)
 		} else if g.spread == 3 {
 			u = rtreemc.NewGridUniverse(g.min, g.max)
+		} else if g.spread == 6 {
+			u = rtreemc.NewPointsUniverse(g.nobj, g.min, g.max, g.dups...)
+		} else if g.spread == 4 {
+			u = rtreemc.NewScaledUniverseBy(math.Ldexp(1, 130), g.nobj, g.min, g.max, g.dups...)
+		} else if g.spread == 5 {
+			u = rtreemc.NewScaledUniverseBy(math.Ldexp(1, -34), g.nobj, g.min, g.max, g.dups...)
 		}
 		e := &rtreemc.Explorer{U: u, R: r, Seeds: g.seeds, CheckState: rtreemc.CheckC12}
 		t0 := time.Now()
